@@ -89,8 +89,16 @@ def r1_coverage(ctx):
         if restricted:
             ctx.unrecognised(DIP, "DIP.parse", "condition coverage", f"attachment is restricted by {restricted}; matrix comparison not implemented for it")
         else:
-            ctx.check(t == "node.condition", DIP, "DIP.parse", "condition: attachable to any node, so validated for any node that has one", detail=t,
-                      expected="node.condition")
+            what = "condition: attachable to any node, so validated for any node that has one"
+            tt = cond[0].test
+            conj = [norm(v) for v in tt.values] if isinstance(tt, ast.BoolOp) and isinstance(tt.op, ast.And) else [t]
+            extra = [c for c in conj if c not in ("node.condition", "node.condition is not None")]
+            if not extra:
+                ctx.holds(DIP, "DIP.parse", what)
+            elif any("isinstance(" in c or ".keyword" in c for c in extra) and len(extra) < len(conj):
+                ctx.violated(DIP, "DIP.parse", what, detail=f"validation restricted by {extra}", expected="node.condition")
+            else:
+                ctx.form(False, DIP, "DIP.parse", what, detail=t)
     # format
     fm = ctx.fn(ND + "node_format.py", "FormatNode.parse")
     fatt = [norm(i.test) for i in ast.walk(fm) if isinstance(i, ast.If) and any(isinstance(r, ast.Raise) for r in i.body)]
@@ -226,12 +234,15 @@ def r4_guarded_deref(ctx):
                         continue          # wrapped (conditionally or not)
                     if tests.get(norm(o)) is False:
                         continue          # this path is the one on which the operand is not a bare boolean
-                    if tests.get(norm(o)) is True:
-                        unwrapped.add(norm(o))
+                    raw = isinstance(o, (ast.Name, ast.Attribute)) or (isinstance(o, ast.Call) and norm(o.func) in ("tokens.get_left", "tokens.get_right") and not o.args)
+                    if raw:
+                        unwrapped.add(norm(o))          # a token as it came from the buffers, untested and unwrapped
                     else:
-                        unwrapped.add(norm(o))
+                        unk.append(norm(o))             # some other expression: what it returns is not known here
         if not seen:
             ctx.unrecognised(LS, f"{cname}.{meth}", "every operand is wrapped when it is a bare boolean", "no logical_* call found on any path")
+        elif unk and not unwrapped:
+            ctx.unrecognised(LS, f"{cname}.{meth}", "every operand is wrapped when it is a bare boolean", f"operand expression not interpreted: {sorted(set(unk))[:2]}")
         else:
             ctx.check(not unwrapped or not bare, LS, f"{cname}.{meth}", "every operand is wrapped when it is a bare boolean",
                       detail={"operands reaching logical_* unwrapped and untested": sorted(unwrapped)} if unwrapped else None,
@@ -363,7 +374,9 @@ def r7_membership(ctx):
         return sorted({"raise" if q.status == "raise" else norm(next((e.resolved for e in q.events if e.kind == "return"), None)) for q in qs})
     # no options
     cs, unk = consistent(ex.paths, lambda e: False if norm(e) == "self.options" else (True if cnorm(e) in any_txt else None))
-    loops = [v for v in ex.iterations.values() if isinstance(v[0], ast.For) and norm(v[0].iter) == "self.options"]
+    # the membership loop compares an option with the value (a loop that only collects the options for the message is not it)
+    loops = [v for v in ex.iterations.values() if isinstance(v[0], ast.For) and norm(v[0].iter) == "self.options"
+             and any(isinstance(c, ast.Compare) and "self.value" in norm(c) for c in ast.walk(v[0]))]
     if loops:
         # with a loop the function-level paths carry one representative iteration: decide the empty case on paths without loop events
         cs = [q for q in ex.paths if not any(e.kind == "loop" for e in q.events) and any(e.kind == "test" and norm(e.resolved) == "self.options" and e.extra is False
@@ -398,6 +411,14 @@ def r7_membership(ctx):
         ctx.check(outcome(no) == ["raise"], SEL, nm, "exhausting the option list without a match is an error (for...else raise)", detail=outcome(no))
 
 
+def _all_functions(tree, prefix=""):
+    for st in tree.body:
+        if isinstance(st, (ast.FunctionDef, ast.AsyncFunctionDef)):
+            yield prefix + st.name, st
+        elif isinstance(st, ast.ClassDef):
+            yield from _all_functions(st, prefix + st.name + ".")
+
+
 def r8_property_target(ctx):
     n = 0
     for f, c in (("node_option.py", "OptionNode"), ("node_constant.py", "ConstantNode"), ("node_condition.py", "ConditionNode"),
@@ -415,12 +436,49 @@ def r8_property_target(ctx):
     ctx.floor("property kinds", n, 6)
     fn, body, orelse = C14._found_branch(ctx)
     mi = next((i for i, s in enumerate(body) if "modify_value(node, target)" in norm(s)), None)
-    ci = next((i for i, s in enumerate(body) if norm(s).startswith("target.nodes.cursor = ")), None)
-    ctx.check(mi is not None and ci is not None and ci > mi and norm(body[ci]) == "target.nodes.cursor = n", DIP, "DIP.parse",
-              "after a modification the modified node becomes the property target", detail=[norm(s)[:60] for s in body])
+    what = "after a modification the modified node becomes the property target"
+    # who writes a cursor at all in the DIP package (evidence for "nobody moves the cursor" needs the whole set)
+    writers = set()
+    for m_ in ctx.repo.all_modules("src/scinumtools/dip"):
+        rel = m_.relpath
+        for q_, f_ in _all_functions(m_.tree):
+            if any(isinstance(x, ast.Attribute) and isinstance(x.ctx, ast.Store) and x.attr == "cursor" for x in ast.walk(f_)) \
+                    or any(isinstance(x, ast.Call) and isinstance(x.func, ast.Name) and x.func.id == "setattr" and len(x.args) >= 2
+                           and isinstance(x.args[1], ast.Constant) and x.args[1].value == "cursor" for x in ast.walk(f_)):
+                writers.add(f"{rel}::{q_}")
+    stores = [(i, x) for i, s_ in enumerate(body) for x in ast.walk(s_) if isinstance(x, ast.Assign) and any(
+        isinstance(t, ast.Attribute) and t.attr == "cursor" for t in x.targets)]
+    idx = {norm(x.slice) for s_ in body for x in ast.walk(s_) if isinstance(x, ast.Subscript) and norm(x.value) == "target.nodes"}
+    if mi is None:
+        ctx.form(False, DIP, "DIP.parse", what, detail="the modification call was not found in the branch of an existing node")
+    elif stores:
+        i, st_ = stores[-1]
+        v = st_.value
+        if isinstance(v, ast.Constant) or (isinstance(v, ast.UnaryOp) and isinstance(v.operand, ast.Constant)):
+            ctx.violated(DIP, "DIP.parse", what, detail=f"the cursor is set to the constant {norm(v)}, not to the index of the modified node",
+                         expected="the index of the node whose modify_value was called")
+        elif i < mi and not any(j >= mi for j, _ in stores):
+            ctx.form(False, DIP, "DIP.parse", what, detail="cursor store precedes the modification")
+        else:
+            ctx.form(norm(v) in idx, DIP, "DIP.parse", what, detail={"cursor": norm(v), "indices used for the modified node": sorted(idx)})
+    elif writers <= {f"{DIP}::DIP.parse"}:
+        ctx.violated(DIP, "DIP.parse", what, detail={"cursor stores in the branch of an existing node": 0, "functions of the DIP package that write a cursor": sorted(writers)},
+                     expected="target.nodes.cursor = <index of the modified node>")
+    else:
+        ctx.form(False, DIP, "DIP.parse", what, detail={"cursor writers": sorted(writers)})
     o = [norm(s) for s in orelse]
-    ok = "target.nodes.append(node)" in o and "target.nodes.cursor = -1" in o and o.index("target.nodes.cursor = -1") > o.index("target.nodes.append(node)")
-    ctx.check(ok, DIP, "DIP.parse", "after a definition the appended node becomes the property target", detail=o[-2:])
+    what2 = "after a definition the appended node becomes the property target"
+    if "target.nodes.append(node)" in o:
+        after = o[o.index("target.nodes.append(node)") + 1:]
+        cur = [x for x in after if x.startswith("target.nodes.cursor = ")]
+        if cur:
+            ctx.check(cur[-1] in ("target.nodes.cursor = -1", "target.nodes.cursor = len(target.nodes) - 1"), DIP, "DIP.parse", what2, detail=cur)
+        elif writers <= {f"{DIP}::DIP.parse"} and not any(x.startswith("target.nodes.cursor = ") for x in o):
+            ctx.violated(DIP, "DIP.parse", what2, detail="no cursor store after the append although modifications move the cursor", expected="target.nodes.cursor = -1")
+        else:
+            ctx.form(False, DIP, "DIP.parse", what2, detail=o[-3:])
+    else:
+        ctx.form(False, DIP, "DIP.parse", what2, detail=o[-3:])
     nl = ctx.fn("src/scinumtools/dip/lists/list_nodes.py", "NodeList.current")
     ctx.form([norm(s) for s in K.body_nodoc(nl)] == ["return self.nodes[self.cursor]"], "src/scinumtools/dip/lists/list_nodes.py", "NodeList.current", "current() is the node at the cursor")
 
